@@ -45,6 +45,10 @@ TCursor ==
   /\ Run(Ev.steps, 1, Ev.len, 0)
   /\ (Ev.mutate => PrintT(<<"MUT", ToJson([sid |-> Ev.sid, cuts |-> SetSeq(Cuts(Ev.steps, Ev.len)), scalars |-> PairSeq(Scalars(Ev.steps))])>>))
 
+\* hand-written decoders driven with model-enumerated hostile inputs (CmapIter.tla, PackedHostile.tla)
+TCmapIter == IsEvent("cmapiter") /\ Ev.n <= (IF Ev.fmt = 4 THEN 65536 ELSE 35)
+TPacked == IsEvent("packed") /\ Ev.outcome \in {"value", "error"} /\ Ev.yields <= Ev.npoints
+
 TInit == l = 1
-TraceSpec == TInit /\ [][TCursor]_l
+TraceSpec == TInit /\ [][TCursor \/ TCmapIter \/ TPacked]_l
 =============================================================================
